@@ -13,6 +13,8 @@ os.environ.setdefault("MYSTIC_VERIF", "1")
 
 
 def import_mystic():
+    import warnings
+    warnings.filterwarnings("ignore")
     import mystic  # noqa
     p = os.path.realpath(os.path.dirname(mystic.__file__))
     want = os.path.realpath(os.path.join(REPO, "mystic"))
